@@ -9,7 +9,7 @@ from vlib.core import *
 from vlib import native
 from vlib.asmx.engine import Engine, State, Region, bv, simp, conc, fresh, Unsupported, BoundExceeded, RET_SENTINEL
 from vlib.asmx.decode import Obj
-from props.asm_hmac import rd, cat, bytes_of, md_pad, uf, HASHES, preserved_gprs, raw_secret
+from props.asm_hmac import rd, cat, bytes_of, md_pad, uf, HASHES, preserved_gprs, raw_secret, same_bytes
 
 HASHES['sm3'] = dict(blk=64, ww=32, nw=8, outw=8, be=True, lenb=8, tags=tuple(range(1, 33)))
 JOBS, STK, DATA = 0x1600000, 0x1700000, 0x1800000
@@ -118,7 +118,7 @@ def run_one(ctx, hmac, length, taglen, hoff=0, safe_data=True, res=None, sabotag
             ipad, opad = opad, ipad
         exp, chain = spec(hmac, msg, ipad, opad, iv, taglen)
         got = [R['tag0'].get(k) for k in range(taglen)]
-        if all(is_true(simplify(g == e)) for g, e in zip(got, exp)):
+        if same_bytes(got, exp):
             r = unsat
         else:
             r, m = E.check(f, Or(*[g != e for g, e in zip(got, exp)]))
